@@ -52,7 +52,24 @@ Proof. intro m. unfold mt103_c4, implb. bool_cases; close. Qed.
 
 (* ---- C6 (E16): "if 23B contains SPRI, 56a must not be present" *)
 Theorem mt103_c6_spec : forall m, has_code "E16" (opt_l (mt103_c6 m)) = (is (b23 m) "SPRI" && any_key m k56acd).
-Proof. intro m. unfold mt103_c6, b23. cbv zeta. bool_cases; close. Qed.
+Proof.
+  intro m. unfold mt103_c6, b23. cbv zeta. destruct (is (code (m ./ "23B")) "SPRI" && any_key m k56acd); [close|].
+  destruct ((is (code (m ./ "23B")) "SSTD" || is (code (m ./ "23B")) "SPAY") && present (m ./ "56D")); close.
+Qed.
+(* ---- C6 (E17): "if 23B contains SSTD or SPAY, 56a may be used with option A or C only" (the options are A, C, D) *)
+Lemma is_excl : forall c a b, bytes_eqb (bs a) (bs b) = false -> is c a = true -> is c b = false.
+Proof.
+  intros c a b N H. unfold is in *. apply bytes_eqb_eq in H. subst c. exact N.
+Qed.
+Theorem mt103_c6_E17_spec : forall m,
+  has_code "E17" (opt_l (mt103_c6 m)) = ((is (b23 m) "SSTD" || is (b23 m) "SPAY") && present (m ./ "56D")).
+Proof.
+  intro m. unfold mt103_c6, b23. cbv zeta.
+  destruct (is (code (m ./ "23B")) "SPRI") eqn:P.
+  - rewrite (is_excl _ "SPRI" "SSTD" eq_refl P), (is_excl _ "SPRI" "SPAY" eq_refl P). cbn [orb andb].
+    destruct (any_key m k56acd); close.
+  - cbn [andb]. destruct ((is (code (m ./ "23B")) "SSTD" || is (code (m ./ "23B")) "SPAY") && present (m ./ "56D")); close.
+Qed.
 
 (* ---- C7 (E13, D50, E15): "71A = OUR: 71F not allowed; SHA: 71G not allowed; BEN: 71F mandatory, 71G not allowed" *)
 Theorem mt103_c7_E13_spec : forall m, has_code "E13" (mt103_c7 m) = (is (chg m) "OUR" && has71f m).
